@@ -24,7 +24,7 @@ func retryOracles(run *retryRun, cfg string, modelSettled, stuck, havePlan bool,
 	script := strings.Join(run.evs, " ")
 
 	// is the client idle on a stable connection?
-	settled := st.QueuedTasks == 0 && st.QueuedRetries == 0 && len(s.conns) > 0 && len(run.planMiss) == 0
+	settled := st.QueuedTasks == 0 && st.QueuedRetries == 0 && len(s.conns) > 0
 	if settled {
 		last := s.conns[len(s.conns)-1]
 		settled = last.accepted && !last.closed
